@@ -29,6 +29,8 @@ ASSUMPTIONS = [
     "`table` lists the probabilities with the variable's own value slowest and the parents in product order (the convention stated "
     "in the property's anchors); BIF numbers are decimal literals, compared exactly through Fractions, printed answers to 1e-9",
     "generated program interpreted through mc.irmodel after Polar's parser (one iteration = one joint sample)",
+    "where a table and an entry give different rows for one parent combination the entry wins, whatever the statement order (the CPT "
+    "assembly order `default, then table, then entries` named in the property's anchors); a default applies to unlisted rows only",
 ]
 
 ROWS = {2: ["0.5, 0.5", "0.2, 0.8", "1.0, 0.0", "0.25, 0.75", "0.9, 0.1", "0.7, 0.3"],
@@ -55,7 +57,7 @@ STRUCTS = {
     "deep": {"A": [], "B": ["A"], "D": ["B"], "E": ["D"], "C": ["A", "E"]},
 }
 BIG = ("diamond", "twinroots", "twinsensors", "deep")
-NOTATIONS = ["table", "entries", "default+entries", "table+override"]
+NOTATIONS = ["table", "entries", "default+entries", "table+override", "override+table", "entries+default"]
 NAMESETS = [{"A": "A", "B": "B", "C": "C", "D": "D", "E": "E", "A2": "A2"},
             {"A": "A-b", "B": "X_1", "C": "Ab", "D": "D.1", "E": "e", "A2": "A_b"},
             {"A": "smoke", "B": "B-x", "C": "bx", "D": "zeta", "E": "alpha", "A2": "smoke2"}]
@@ -138,6 +140,18 @@ def render_bif(net, notations, names, sizes, break_kind=None, order=None):
             for c in combs[1:]:
                 if rowtxt[c] != rowtxt[combs[0]]:
                     body.append(entry(c, rowtxt[c]))
+        elif nota == "entries+default":
+            # the default statement written AFTER the entries it does not concern
+            for c in combs[1:]:
+                if rowtxt[c] != rowtxt[combs[0]]:
+                    body.append(entry(c, rowtxt[c]))
+            body.append("  default %s;" % rowtxt[combs[0]])
+        elif nota == "override+table":
+            # the overriding entry written BEFORE the table it overrides (CPT assembly is by kind, not by statement order)
+            wrong = dict(rowtxt)
+            wrong[combs[0]] = ROWS[info["size"]][-1] if rowtxt[combs[0]] != ROWS[info["size"]][-1] else ROWS[info["size"]][-2]
+            body.append(entry(combs[0], rowtxt[combs[0]]))
+            body.append(table_line(wrong))
         else:  # table overridden by entries: the table holds a shifted row for the first combination
             wrong = dict(rowtxt)
             wrong[combs[0]] = ROWS[info["size"]][-1] if rowtxt[combs[0]] != ROWS[info["size"]][-1] else ROWS[info["size"]][-2]
